@@ -18,6 +18,8 @@ pub enum FormPart {
 pub struct EncodeOpts {
     pub boundary: String,
     pub extra_headers: bool,
+    /// where the optional extra part header goes: 0 after the others (default), 1 before them, 2 between Content-Disposition and Content-Type
+    pub extra_at: u8,
     pub lower_header_names: bool,
     pub content_type_first: bool,
 }
@@ -31,8 +33,11 @@ pub fn encode(parts: &[FormPart], o: &EncodeOpts) -> Vec<u8> {
         out.extend_from_slice(format!("--{}\r\n", o.boundary).as_bytes());
         match p {
             FormPart::Text { name, value } => {
+                if o.extra_headers && o.extra_at == 1 {
+                    out.extend_from_slice(b"X-Custom: 1\r\n");
+                }
                 out.extend_from_slice(format!("{cd}: form-data; name=\"{name}\"\r\n").as_bytes());
-                if o.extra_headers {
+                if o.extra_headers && o.extra_at != 1 {
                     out.extend_from_slice(b"X-Custom: 1\r\n");
                 }
                 out.extend_from_slice(b"\r\n");
@@ -41,17 +46,18 @@ pub fn encode(parts: &[FormPart], o: &EncodeOpts) -> Vec<u8> {
             FormPart::File { name, filename, mime, content } => {
                 let d = format!("{cd}: form-data; name=\"{name}\"; filename=\"{filename}\"\r\n");
                 let t = format!("{ct}: {mime}\r\n");
-                if o.content_type_first && !mime.is_empty() {
-                    out.extend_from_slice(t.as_bytes());
-                    out.extend_from_slice(d.as_bytes());
-                } else {
-                    out.extend_from_slice(d.as_bytes());
-                    if !mime.is_empty() {
-                        out.extend_from_slice(t.as_bytes());
-                    }
+                let x: &[u8] = b"Content-Transfer-Encoding: binary\r\n";
+                let (first, second): (&[u8], &[u8]) = if o.content_type_first && !mime.is_empty() { (t.as_bytes(), d.as_bytes()) } else { (d.as_bytes(), if mime.is_empty() { b"" } else { t.as_bytes() }) };
+                if o.extra_headers && o.extra_at == 1 {
+                    out.extend_from_slice(x);
                 }
-                if o.extra_headers {
-                    out.extend_from_slice(b"Content-Transfer-Encoding: binary\r\n");
+                out.extend_from_slice(first);
+                if o.extra_headers && o.extra_at == 2 {
+                    out.extend_from_slice(x);
+                }
+                out.extend_from_slice(second);
+                if o.extra_headers && o.extra_at != 1 && o.extra_at != 2 {
+                    out.extend_from_slice(x);
                 }
                 out.extend_from_slice(b"\r\n");
                 out.extend_from_slice(content);
@@ -150,7 +156,7 @@ pub fn run(args: &Args, rep: &mut Report) {
     if args.shard == 0 && args.start == 0 {
         // witness of the repaired finding: required File with an empty file input
         let parts = vec![FormPart::Text { name: "title".into(), value: "t".into() }, FormPart::File { name: "doc".into(), filename: String::new(), mime: "application/octet-stream".into(), content: vec![] }];
-        let body = encode(&parts, &EncodeOpts { boundary: "XbOuNd".into(), extra_headers: false, lower_header_names: false, content_type_first: false });
+        let body = encode(&parts, &EncodeOpts { boundary: "XbOuNd".into(), extra_headers: false, extra_at: 0, lower_header_names: false, content_type_first: false });
         rep.eval();
         match catch(|| from_bytes::<TA>(&body).map(|_| ()).map_err(|e| e.to_string())) {
             Ok(Err(_)) => rep.count("shape_mismatch_refused"),
@@ -248,13 +254,13 @@ fn one(rep: &mut Report, case: u64, rng: &mut Rng, small: bool) {
     }
     rng.shuffle(&mut groups);
     let ordered: Vec<FormPart> = groups.into_iter().flatten().collect();
-    let opts = EncodeOpts { boundary: gen_boundary(rng, &ordered), extra_headers: rng.chance(1, 3), lower_header_names: rng.chance(1, 4), content_type_first: rng.chance(1, 4) };
+    let opts = EncodeOpts { boundary: gen_boundary(rng, &ordered), extra_headers: rng.chance(1, 3), extra_at: rng.below(3) as u8, lower_header_names: rng.chance(1, 4), content_type_first: rng.chance(1, 4) };
     let body = encode(&ordered, &opts);
     classes.sort();
     classes.dedup();
     rep.eval();
     rep.count(&format!("target:{target}"));
-    rep.distinct(&format!("{target}:{why}:{}:{}:{}{}{}", ordered.len(), classes.join("+"), opts.extra_headers as u8, opts.lower_header_names as u8, opts.content_type_first as u8));
+    rep.distinct(&format!("{target}:{why}:{}:{}:{}{}{}", ordered.len(), classes.join("+"), if opts.extra_headers { 1 + opts.extra_at } else { 0 }, opts.lower_header_names as u8, opts.content_type_first as u8));
     let tname = ["TA{title:&str,doc:File}", "TB{title,doc:Option<File>,pics:Vec<File>,note:Option<&str>}", "TC{title,user-name}"][target];
     let cj = |extra: serde_json::Value| json!({"case_index": case, "target": tname, "shape": why,
         "body": crate::rng::show(&body[..body.len().min(1500)]), "body_hex": crate::rng::hex(&body[..body.len().min(3000)]), "detail": extra});
